@@ -1185,7 +1185,7 @@ def run(ctx: Ctx) -> None:
     if ctx.tier != "quick":
         # small-scope enumeration: every list of <= 3 deltas over 2 targets x 5 magnitudes x 3 provenances
         check_cases(ctx, list(enumerate_small()))
-        ctx.extra["exhaustive"] = {"t4": "all delta lists of length <= 3 over 2 targets x 5 magnitudes x 3 op indices (2 ops, one in cooldown), k in {1, 64}"}
+        ctx.extra["exhaustive_scopes"] = {"t4": "all delta lists of length <= 3 over 2 targets x 5 magnitudes x 3 op indices (2 ops, one in cooldown), k in {1, 64}"}
     float_gap_probe(ctx, 300 if ctx.tier == "quick" else 6000)
     hrng = ctx.rng_for(HIST_COMP)
     nh = int((400 if ctx.tier == "quick" else 8000) * ctx.budget_scale)
